@@ -340,6 +340,34 @@ pub fn main(args: &[String]) {
             None });
         match res { Some(None) => {}, Some(Some(v)) => oracle_viol.push(Json::obj(vec![("kind", Json::Num(0.0)), ("what", Json::Str(format!("types with function-entry types: {}", v))), ("case", Json::Str(String::new()))])),
             None => oracle_viol.push(Json::obj(vec![("kind", Json::Num(0.0)), ("what", Json::Str("types with function-entry types: an operation panicked".into())), ("case", Json::Str(String::new()))])) } }
+    // deletion BY NAME (ModuleImports::remove, ModuleExports::remove, ModuleImports::find / get_func): exactly the first live entry with that
+    // (module, field) / name goes, every other identifier keeps denoting its item, an absent name is reported and deletes nothing
+    { let mut rr = Rng::new(seed ^ 0xB7A4E); let n_hist = if n_random > 1000 { 600 } else { 80 };
+      for h in 0..n_hist { let res = catch(|| -> Option<String> {
+            let mut m = Module::default(); let t0 = m.types.add(&[], &[]);
+            let mods = ["env", "wasi", "x"]; let fields = ["log", "tick", "a"];
+            let mut imps: Vec<(ImportId, FunctionId, String, String, bool)> = vec![]; let mut exps: Vec<(ExportId, String, bool)> = vec![]; let mut log = vec![];
+            for step in 0..(4 + rr.usize(10)) { match rr.below(6) {
+                0 | 1 => { let (md, fl) = (*rr.pick(&mods), *rr.pick(&fields)); let (f, i) = m.add_import_func(md, fl, t0); log.push(format!("import {}.{}", md, fl)); imps.push((i, f, md.to_string(), fl.to_string(), true)); }
+                2 => { if let Some(x) = imps.first() { let nm = *rr.pick(&fields); let f = x.1; let e = m.exports.add(nm, f); log.push(format!("export {}", nm)); exps.push((e, nm.to_string(), true)); } }
+                3 => { let (md, fl) = (*rr.pick(&mods), *rr.pick(&fields)); let want = imps.iter().position(|x| x.4 && x.2 == md && x.3 == fl);
+                       let found = m.imports.find(md, fl); if found != want.map(|k| imps[k].0) { return Some(format!("history {} step {}: imports.find({}, {}) = {:?}, the first live import with that name is {:?} [{}]", h, step, md, fl, found.map(|i| i.index()), want.map(|k| imps[k].0.index()), log.join("; "))); }
+                       let r = m.imports.remove(md, fl); log.push(format!("imports.remove {}.{}", md, fl));
+                       match want { Some(k) => { if r.is_err() { return Some(format!("history {} step {}: imports.remove({}, {}) failed although such an import is live [{}]", h, step, md, fl, log.join("; "))); } imps[k].4 = false; }
+                                    None => if r.is_ok() { return Some(format!("history {} step {}: imports.remove({}, {}) succeeded although no such import is live [{}]", h, step, md, fl, log.join("; "))); } } }
+                4 => { let nm = *rr.pick(&fields); let want = exps.iter().position(|x| x.2 && x.1 == nm); let r = m.exports.remove(nm); log.push(format!("exports.remove {}", nm));
+                       match want { Some(k) => { if r.is_err() { return Some(format!("history {} step {}: exports.remove({}) failed although such an export is live [{}]", h, step, nm, log.join("; "))); } exps[k].2 = false; }
+                                    None => if r.is_ok() { return Some(format!("history {} step {}: exports.remove({}) succeeded although no such export is live [{}]", h, step, nm, log.join("; "))); } } }
+                _ => {} }
+                // after every step: exactly the entries believed live are live, each still denoting its item
+                let live_i: Vec<usize> = m.imports.iter().map(|i| i.id().index()).collect(); let want_i: Vec<usize> = imps.iter().filter(|x| x.4).map(|x| x.0.index()).collect();
+                if live_i != want_i { return Some(format!("history {} step {}: live imports are {:?}, expected {:?} (deletion by name is not isolated) [{}]", h, step, live_i, want_i, log.join("; "))); }
+                for x in imps.iter().filter(|x| x.4) { let i = m.imports.get(x.0); if i.module != x.2 || i.name != x.3 { return Some(format!("history {} step {}: import id {} no longer denotes {}.{} [{}]", h, step, x.0.index(), x.2, x.3, log.join("; "))); } }
+                let live_e: Vec<usize> = m.exports.iter().map(|e| e.id().index()).collect(); let want_e: Vec<usize> = exps.iter().filter(|x| x.2).map(|x| x.0.index()).collect();
+                if live_e != want_e { return Some(format!("history {} step {}: live exports are {:?}, expected {:?} (deletion by name is not isolated) [{}]", h, step, live_e, want_e, log.join("; "))); } }
+            None });
+        match res { Some(None) => {}, Some(Some(v)) => oracle_viol.push(Json::obj(vec![("kind", Json::Num(8.0)), ("what", Json::Str(format!("deletion by name: {}", v))), ("case", Json::Str(String::new()))])),
+            None => oracle_viol.push(Json::obj(vec![("kind", Json::Num(8.0)), ("what", Json::Str("deletion by name: an operation panicked".into())), ("case", Json::Str(String::new()))])) } } }
     let mut seen = std::collections::HashSet::new(); let mut nontrivial = 0u64;
     for (kind, ops) in &hist {
         // drop ids that were never handed out (possible for types because of de-duplication)
